@@ -290,7 +290,7 @@ def _tail(path, n):
     try:
         with open(path, errors="replace") as fh:
             lines = fh.readlines()
-        lines = [l for l in lines if not re.match(r"^\s*(warning|-->|\d* *\||= note|= help|help:)", l) and l.strip()]
+        lines = [l for l in lines if not re.match(r"^\s*(warning|-->|\d* *\||= note|= help|= warning|help:|\.\.\.)", l) and l.strip()]
         return "".join(lines[-n:])
     except OSError:
         return ""
